@@ -535,6 +535,11 @@ func genC16Fault(t *rapid.T) *c16Fault {
 	sn := pick(t, "snip", c16Snips)
 	where := pick(t, "where", []string{"root", "root", "inc", "base", "baseblock", "childblock", "mac", "lazyinc"})
 	pre := genC16Layout(t, "pre")
+	if sn.exec && sn.kind != "macro_too_many" && drawInt(t, 0, 2, "decoy") == 0 {
+		// the same construct once more, earlier, where it is never executed: the error must point at
+		// the occurrence that failed, not at the first place the expression was written
+		pre += "{% if zero %}" + sn.src + "{% endif %}" + genC16Layout(t, "pre2")
+	}
 	post := ""
 	if !sn.atEOF && !sn.lexer {
 		post = genC16Layout(t, "post")
